@@ -111,6 +111,23 @@ func (h *chunkHeartbeat) Marshal() ([]byte, error) {
 	return h.chunkHeader.marshal()
 }
 
+// marshal implements the chunk interface. Without it *chunkHeartbeat would
+// satisfy chunk through the embedded chunkHeader's marshal, which knows nothing
+// about the Heartbeat Info parameter.
+func (h *chunkHeartbeat) marshal() ([]byte, error) {
+	if len(h.params) == 0 {
+		// A HEARTBEAT without Heartbeat Info is accepted by unmarshal (empty
+		// body); encode it the same way.
+		h.chunkHeader.typ = ctHeartbeat
+		h.chunkHeader.flags = 0
+		h.chunkHeader.raw = nil
+
+		return h.chunkHeader.marshal()
+	}
+
+	return h.Marshal()
+}
+
 func (h *chunkHeartbeat) check() (abort bool, err error) {
 	return false, nil
 }
